@@ -3,6 +3,7 @@ package checks
 import (
 	"bytes"
 	"context"
+	"crypto/tls"
 	"encoding/base64"
 	"encoding/json"
 	"fmt"
@@ -62,6 +63,9 @@ type c07Cfg struct {
 	// OPPOSITE policy: 1 = options WithTLSPolicy(opposite), WithPort(2525), WithTLSPortPolicy(policy); 2 = constructed
 	// with WithTLSPolicy(opposite), WithPort(2525) and then SetTLSPortPolicy(policy)
 	PortPol int `json:"portpol,omitempty"`
+	// SharedTLS: the caller's *tls.Config (trusted roots, no ServerName) is shared with ANOTHER Client for another host
+	// (other.example.test), which dialled a server presenting a certificate for that name before the judged dial
+	SharedTLS bool `json:"sharedtls,omitempty"`
 }
 
 // c07FBMu serialises the fallback-port cases of one process (they listen on the fixed port 25 of a
@@ -353,6 +357,25 @@ func c07Exec(r *vf.Run, cfg c07Cfg) []finding {
 	} else if strings.HasPrefix(an, "CUSTOM") {
 		opts = append(opts, mail.WithSMTPAuthCustom(smtp.PlainAuth("", c07User, c07Pass, host, false)))
 	}
+	if cfg.SharedTLS {
+		shared := &tls.Config{RootCAs: mat.Pool, MinVersion: tls.VersionTLS12}
+		opts = append(opts, mail.WithTLSConfig(shared))
+		os2 := &refsmtp.Session{Host: "other.example.test", Caps: []string{"STARTTLS", "8BITMIME"}}
+		oc := refsmtp.NewConn(os2)
+		oc.TLSConfig = hx.ServerTLS(mat.WrongName)
+		orig := &hx.Rig{Mk: func(n int) *refsmtp.Conn {
+			if n > 0 {
+				return nil
+			}
+			return oc
+		}}
+		if ocl, oerr := mail.NewClient("other.example.test", mail.WithDialContextFunc(orig.Dial), mail.WithHELO("client.example.test"), mail.WithTLSConfig(shared), mail.WithTLSPolicy(mail.TLSMandatory)); oerr == nil {
+			if ocl.DialWithContext(context.Background()) == nil {
+				_ = ocl.Close()
+			}
+		}
+		r.Outcome("reached/tls-config-shared-with-another-client")
+	}
 	cl, err := mail.NewClient(host, opts...)
 	if err != nil {
 		r.HarnessError("C07 NewClient: %v", err)
@@ -535,7 +558,7 @@ func init() {
 	vf.Register(&vf.Check{
 		ID: "C07", Title: "TLS policy and credential confidentiality hold against any server",
 		Run: func(r *vf.Run) {
-			r.SetRule("the full product TLS policy {mandatory, opportunistic, none, implicit (go-mail's own TLS dialer over a loopback bridge)} × 13 auth types × (mandatory/opportunistic) WithTLSPortPolicy with the primary port refusing (also with the policy changed afterwards through SetTLSPolicy, which leaves the fallback port in place) × (implicit TLS) a Client that first dialled without TLS and was then switched over with SetSSL(true) × the QuickSend entry point (own Client, opportunistic TLS, auto-discovery) against plain and STARTTLS servers × every policy with the server behind a UNIX domain socket (unix:// host, go-mail's own dialer) × (implicit TLS) a plain connection supplied by the caller's own dial function (password clauses only) × (implicit TLS) fallback enabled with the primary port refusing and the fallback port 25 served by a plain-text or an implicit-TLS server × the policy given through WithTLSPortPolicy / SetTLSPortPolicy on a Client that already has a custom port and the opposite policy × configuration through options or through the Client's setters (after construction with the opposite settings) × host name {mail.example.test, five remote names that resemble loopback names (localhost.example.test, 127.0.0.1.example.test, …), localhost, 127.0.0.1} × server behaviour {STARTTLS advertised or not; reply 220 / 454 / 501 / garbage / 220 followed by injected plaintext; handshake ok / wrong-name certificate / untrusted certificate / garbage; 7 advertised AUTH lists}, each executed with real crypto/tls handshakes where reached; oracle on the byte tap of everything the client wrote before/after the switch to TLS; distinct by configuration")
+			r.SetRule("the full product TLS policy {mandatory, opportunistic, none, implicit (go-mail's own TLS dialer over a loopback bridge)} × 13 auth types × (mandatory/opportunistic) WithTLSPortPolicy with the primary port refusing (also with the policy changed afterwards through SetTLSPolicy, which leaves the fallback port in place) × (implicit TLS) a Client that first dialled without TLS and was then switched over with SetSSL(true) × the QuickSend entry point (own Client, opportunistic TLS, auto-discovery) against plain and STARTTLS servers × every policy with the server behind a UNIX domain socket (unix:// host, go-mail's own dialer) × (implicit TLS) a plain connection supplied by the caller's own dial function (password clauses only) × (implicit TLS) fallback enabled with the primary port refusing and the fallback port 25 served by a plain-text or an implicit-TLS server × the policy given through WithTLSPortPolicy / SetTLSPortPolicy on a Client that already has a custom port and the opposite policy × a caller's tls.Config without ServerName that is shared with another Client for another host × configuration through options or through the Client's setters (after construction with the opposite settings) × host name {mail.example.test, five remote names that resemble loopback names (localhost.example.test, 127.0.0.1.example.test, …), localhost, 127.0.0.1} × server behaviour {STARTTLS advertised or not; reply 220 / 454 / 501 / garbage / 220 followed by injected plaintext; handshake ok / wrong-name certificate / untrusted certificate / garbage; 7 advertised AUTH lists}, each executed with real crypto/tls handshakes where reached; oracle on the byte tap of everything the client wrote before/after the switch to TLS; distinct by configuration")
 			r.Assume("a completed server-side handshake implies the client accepted the certificate (TLS 1.2/1.3 semantics)", "implicit TLS is only exercised against loopback addresses (go-mail's dialer needs a real socket; the fallback cases listen on port 25 of 127.x.y.z)")
 			var cfgs []c07Cfg
 			for pol := 0; pol < 4; pol++ {
@@ -606,6 +629,9 @@ func init() {
 										if hostIdx == 0 && c07Auths[a] != "none" && !strings.HasPrefix(c07Auths[a], "CUSTOM") {
 											cfgs = append(cfgs, c07Cfg{Policy: pol, Auth: a, Local: local, HostIdx: hostIdx, Adv: adv, STReply: st, HS: hs, AuthList: al, Setters: true})
 										}
+										if hostIdx == 0 && st == 0 && adv && pol <= 1 && hs <= 1 {
+											cfgs = append(cfgs, c07Cfg{Policy: pol, Auth: a, Local: local, HostIdx: hostIdx, Adv: adv, STReply: st, HS: hs, AuthList: al, SharedTLS: true})
+										}
 										if hostIdx == 0 && (st == 0 || st == 1) && hs == 0 {
 											for pp := 1; pp <= 2; pp++ {
 												cfgs = append(cfgs, c07Cfg{Policy: pol, Auth: a, Local: local, HostIdx: hostIdx, Adv: adv, STReply: st, HS: hs, AuthList: al, PortPol: pp})
@@ -660,7 +686,7 @@ func init() {
 					})
 				}
 			})
-			r.Reached("fallback-connection-used/fb=1", "fallback-connection-used/fb=2", "fallback-connection-used/fb=3", "fallback-connection-used/fb=4", "fallback-connection-used/fb=5", "unix-socket-used/mandatory", "unix-socket-used/opportunistic", "unix-socket-used/none", "unix-socket-used/implicit", "quicksend-dialogue", "quicksend-authenticated", "port-policy-variant/1", "port-policy-variant/2", "configured-through-setters", "second-dial-judged",
+			r.Reached("fallback-connection-used/fb=1", "fallback-connection-used/fb=2", "fallback-connection-used/fb=3", "fallback-connection-used/fb=4", "fallback-connection-used/fb=5", "unix-socket-used/mandatory", "unix-socket-used/opportunistic", "unix-socket-used/none", "unix-socket-used/implicit", "quicksend-dialogue", "quicksend-authenticated", "port-policy-variant/1", "port-policy-variant/2", "reached/tls-config-shared-with-another-client", "configured-through-setters", "second-dial-judged",
 				"tls-established/mandatory", "tls-established/opportunistic", "tls-established/implicit", "authenticated/PLAIN", "authenticated/SCRAM-SHA-256-PLUS")
 		},
 		Replay: func(r *vf.Run, kase json.RawMessage) {
